@@ -78,10 +78,22 @@ pub fn check(tape: &[u32]) -> CheckResult {
     // enforce frames != layers often by skewing the maxima
     if t.chance(1, 2) {
         c.max_frames = 2;
+        c.max_layers = 12;
+        c.cel_density = 7;
     } else {
         c.max_layers = 3;
     }
-    let s = build_sprite(&mut t, &c);
+    let mut s = build_sprite(&mut t, &c);
+    // a quarter of the sprites have a single visible layer left (however many layers and cels they have), so
+    // that "exactly one visible layer has a cel" also happens in crowded frames
+    if t.chance(1, 4) && !s.layers.is_empty() {
+        let keep = t.below(s.layers.len() as u32) as usize;
+        for (i, l) in s.layers.iter_mut().enumerate() {
+            if i != keep && l.kind != crate::model::LayerKind::Group {
+                l.flags &= !crate::model::LF_VISIBLE;
+            }
+        }
+    }
     let plan = build_plan(&mut t);
     let enc = encode(&s, &plan);
     let detail = || json!({"model": super::c01::summarize(&s), "input_hex": if enc.bytes.len() < 8000 { hex(&enc.bytes) } else { String::new() }});
